@@ -137,7 +137,7 @@ def check_property(prop, tier="quick", seed=0, only=None, verbose=False):
         real = [o for o in obs if o["kind"] != "canary"]
         if not real and not getattr(C, "allow_no_obligations", False):
             errors.append(dict(contract=cls, shape=shape, error="vacuous: zero obligations generated"))
-        if r.get("returning_paths", 0) == 0 and not getattr(C, "may_not_return", False):
+        if r.get("returning_paths", 0) == 0 and not getattr(C, "may_not_return", False) and not any(o["status"] == "refuted" and o["kind"] != "canary" for o in obs):
             errors.append(dict(contract=cls, shape=shape, error="vacuous: no returning path (precondition unsatisfiable or function always raises)"))
         for en in r.get("raises", []):
             if len(raises_listed) < 20:
@@ -168,6 +168,11 @@ def check_property(prop, tier="quick", seed=0, only=None, verbose=False):
 
     # ------------------------------------------------------------ replay of refuted obligations
     os.makedirs(os.path.join(VERIF, "replays"), exist_ok=True)
+    import glob
+
+    if not only:
+        for old in glob.glob(os.path.join(VERIF, "replays", f"{prop}-*.json")):
+            os.unlink(old)
     # group by (cls, clause, shape idx): replay the first model of each group
     groups = {}
     for cls, idx, o, shape in refuted:
@@ -346,12 +351,20 @@ def check_property(prop, tier="quick", seed=0, only=None, verbose=False):
             continue
         seen.add(key)
         print(f"KNOWN-FINDING: property={prop} {k['finding']}: {k['what']}")
+    shown = set()
     for e in errors:
-        print(f"CHECK-ERROR property={prop} contract={e.get('contract')} shape={e.get('shape')} {e['error']}")
-        if verbose and e.get("trace"):
-            print(e["trace"], file=sys.stderr)
-        if verbose and e.get("detail"):
-            print(json.dumps(e["detail"], default=str)[:3000], file=sys.stderr)
+        key = (e.get("contract"), e["error"][:80])
+        if key in shown:
+            continue
+        shown.add(key)
+        if len(shown) > 12:
+            print(f"CHECK-ERROR property={prop} ... {len(errors)} errors in total")
+            break
+        print(f"CHECK-ERROR property={prop} contract={e.get('contract')} shape={e.get('shape')} {e['error'][:300]}")
+        if verbose and e.get("trace") and len(shown) <= 2:
+            print(e["trace"][-1500:], file=sys.stderr)
+        if verbose and e.get("detail") and len(shown) <= 2:
+            print(json.dumps(e["detail"], default=str)[:1200], file=sys.stderr)
     if errors:
         return 3
     for fname, nofail, cls, clause in violations:
